@@ -4,19 +4,22 @@
 package dev
 
 import (
-	"encoding/hex"
 	"errors"
-	"fmt"
 	"io"
 
-	"a0verif/plan"
+	"a0verif/plan/core"
 )
+
+type wrappedEOF struct{}
+
+func (wrappedEOF) Error() string { return "simulated device: EOF" }
+func (wrappedEOF) Unwrap() error { return io.EOF }
 
 // MaxKeep bounds the copy of delivered bytes kept for the oracles.
 const MaxKeep = 1 << 20
 
 var ErrSim = errors.New("simulated device failure")
-var ErrWrappedEOF = fmt.Errorf("simulated device: %w", io.EOF)
+var ErrWrappedEOF error = wrappedEOF{}
 
 func ErrOf(kind string) error {
 	switch kind {
@@ -40,11 +43,11 @@ type Dev struct {
 	prefix []byte
 	fill   string
 	seed   uint64
-	script []plan.DevStep
+	script []core.DevStep
 	step   int
 
 	Pos       int            // bytes delivered so far
-	Log       []plan.ReadRec // every Read call
+	Log       []core.ReadRec // every Read call
 	Delivered []byte         // every byte delivered, in order
 	FirstErr  int            // index in Log of the first read that returned an error, -1 if none
 	DAtErr    int            // bytes delivered up to and including that read
@@ -53,20 +56,20 @@ type Dev struct {
 	Hook      func() // called at the start of every Read (scheduler preemption point), may be nil
 }
 
-func New(d *plan.Dev) *Dev {
+func New(d *core.Dev) *Dev {
 	x := &Dev{FirstErr: -1}
 	x.Arm(d)
 	return x
 }
 
 // Arm (re)configures the device and clears its log.
-func (x *Dev) Arm(d *plan.Dev) {
+func (x *Dev) Arm(d *core.Dev) {
 	*x = Dev{FirstErr: -1, Hook: x.Hook}
 	if d == nil {
 		x.fill = "prng"
 		return
 	}
-	x.prefix, _ = hex.DecodeString(d.Hex)
+	x.prefix = core.Unhex(d.Hex)
 	x.fill, x.seed, x.script = d.Fill, d.Seed, d.Script
 	if x.fill == "" {
 		x.fill = "prng"
@@ -77,7 +80,7 @@ func (x *Dev) byteAt(i int) byte {
 	if i < len(x.prefix) {
 		return x.prefix[i]
 	}
-	return plan.FillByte(x.fill, x.seed, i)
+	return core.FillByte(x.fill, x.seed, i)
 }
 
 func (x *Dev) Read(p []byte) (int, error) {
@@ -109,7 +112,7 @@ func (x *Dev) Read(p []byte) (int, error) {
 	if x.FirstErr >= 0 {
 		x.AfterErr++
 	}
-	x.Log = append(x.Log, plan.ReadRec{Asked: len(p), Gave: k, Err: ek})
+	x.Log = append(x.Log, core.ReadRec{Asked: len(p), Gave: k, Err: ek})
 	if ek != "" && x.FirstErr < 0 {
 		x.FirstErr = len(x.Log) - 1
 		x.DAtErr = x.Pos
